@@ -32,7 +32,7 @@ ANCHORS = [
     "raggedshape.py::RaggedView2._calculate_lengths",
     "raggedshape.py::build_indices",
 ]
-RECVS = ["fresh", "lazyrows", "lazycols+2", "lazycols-1", "lazychain", "ufunc", "astype", "deepcopy", "pickle", "copy-of-lazy", "readonly", "saveload", "concat", "fromnumpy", "fromnumpy-F", "tonumpy-called", "subclass", "was-argument", "byteswapped", "unsafe", "ctype-alias", "own-shape", "lazytail-parent-used", "lens-refilled", "rslice-result"]
+RECVS = ["fresh", "lazyrows", "lazycols+2", "lazycols-1", "lazychain", "ufunc", "astype", "deepcopy", "pickle", "copy-of-lazy", "readonly", "saveload", "concat", "fromnumpy", "fromnumpy-F", "tonumpy-called", "subclass", "was-argument", "byteswapped", "unsafe", "ctype-alias", "own-shape", "lazytail-parent-used", "lens-refilled", "rslice-result", "buffer-subclass"]
 FLOOR_TAGS = ["recv:" + r_ for r_ in RECVS] + ["mask-as-list", "r:int", "r:slice+1", "r:slice+k", "r:slice-", "r:list", "r:array", "r:mask", "r:ell",
               "c:none", "c:int+", "c:int-", "c:slice+1", "c:slice+k", "c:slice-",
               "must-refuse", "sel-has-empty-row", "ellipsis-padded", "e-first", "e-last", "e-mid", "e-consec", "allempty", "norows"]
@@ -149,6 +149,9 @@ def build_receiver(recv, flat, lens):
         prow = [r[::-1] for r in rows]
         parent = RA(np.concatenate(prow) if prow else flat[:0], [len(r) for r in prow])
         return parent[:, ::-1], parent
+    if recv == "buffer-subclass":
+        # the flat buffer is an instance of a subclass of numpy's array type (a memory-mapped file, a unit-carrying array that adds nothing)
+        return RA(flat.copy().view(_BufferSubclass), list(lens)), None
     if recv == "lens-refilled":
         # the row lengths are handed over as the caller's own int64 vector, which he refills for his next batch right after the construction
         L_ = np.array(list(lens), dtype=np.int64)
@@ -191,6 +194,10 @@ def build_receiver(recv, flat, lens):
 
 
 _SUB = []
+
+
+class _BufferSubclass(np.ndarray):
+    """a subclass of numpy's array that changes nothing (what np.memmap is to code that only reads and writes cells)"""
 
 
 def _subclass():
